@@ -33,6 +33,11 @@ type K8sScaleCase struct {
 	ExtraLo int    `json:"extraClaimsBelow"`
 	UpdErr  int    `json:"updateError"` // 0: accepted, 1: the API server answers 409 Conflict, 2: another error
 	Other   bool   `json:"otherSet"`    // a second StatefulSet matches the selector (listed after this one)
+	// the replica count was changed after the manager had been obtained - by an earlier ChangeScale of the
+	// same manager (Via = "same") or by somebody else (Via = "other"): Cur is the count at listing time,
+	// Live the count when ChangeScale(Expect) is called
+	Via  string `json:"changedVia,omitempty"`
+	Live int32  `json:"liveReplicas,omitempty"`
 }
 type K8sPod struct {
 	Ord int `json:"ord"` // -1: a pod with an unrelated name
@@ -127,6 +132,19 @@ func runK8sScale(c *K8sScaleCase) (line string, obs map[string]interface{}) {
 			return true, nil, fmt.Errorf("etcdserver: request timed out")
 		})
 	}
+	live := c.Cur
+	switch c.Via {
+	case "same":
+		_ = mgrs[0].ChangeScale(c.Live)
+		live = c.Live
+	case "other":
+		if cur, err := cli.AppsV1().StatefulSets(stsNS).Get(context.TODO(), stsName, metav1.GetOptions{}); err == nil {
+			l := c.Live
+			cur.Spec.Replicas = &l
+			_, _ = cli.AppsV1().StatefulSets(stsNS).Update(context.TODO(), cur, metav1.UpdateOptions{})
+		}
+		live = c.Live
+	}
 	cli.ClearActions()
 	scaleErr := mgrs[0].ChangeScale(c.Expect)
 	updated := false
@@ -166,7 +184,7 @@ func runK8sScale(c *K8sScaleCase) (line string, obs map[string]interface{}) {
 	w.add(0)
 	w.bool(c.Del)
 	w.bool(c.CurNil)
-	w.add(int64(c.Cur), int64(c.Tpls), int64(c.Expect))
+	w.add(int64(live), int64(c.Tpls), int64(c.Expect))
 	repNil := got == nil || got.Spec.Replicas == nil
 	w.bool(repNil)
 	if repNil {
@@ -295,7 +313,7 @@ func runK8sRoll(c *K8sRollCase) (string, map[string]interface{}) {
 
 func runK8s(a Args) *Result {
 	res := newResult("k8s", a.seed, a.tier)
-	res.Rule = "scale: every (current, requested) in [0,6]^2 x templates 0..3 x deletePVC x nil-replicas (exhaustive), plus a rejected Update (409 Conflict / other error) for every changing pair in [0,5]^2 x templates 0..2; a third of the cases with a second StatefulSet of the same selector listed after this one; shards: random pod lists (permutations of ordinals, missing IPs, malformed lists with gaps/foreign names); rolling: all (replicas, updated) in [0,3]^2; non-trivial = the scale changes, or the pod list is a non-identity permutation"
+	res.Rule = "scale: every (current, requested) in [0,6]^2 x templates 0..3 x deletePVC x nil-replicas (exhaustive), plus a rejected Update (409 Conflict / other error) for every changing pair in [0,5]^2 x templates 0..2; a third of the cases with a second StatefulSet of the same selector listed after this one; the replica count changed between listing and ChangeScale (by the same manager or by somebody else) with the request equal to the count at listing time; shards: random pod lists (permutations of ordinals, missing IPs, malformed lists with gaps/foreign names); rolling: all (replicas, updated) in [0,3]^2; non-trivial = the scale changes, or the pod list is a non-identity permutation"
 	rng := NewRng(a.seed)
 	type item struct {
 		c   interface{}
@@ -329,6 +347,19 @@ func runK8s(a Args) *Result {
 							add(c, l, o)
 						}
 					}
+				}
+			}
+		}
+		// the count changes between listing and ChangeScale; the request equals the count at listing time
+		for l := int32(0); l <= 4 && cur <= 4; l++ {
+			if l == cur {
+				continue
+			}
+			for _, via := range []string{"same", "other"} {
+				for _, del := range []bool{false, true} {
+					c := &K8sScaleCase{Kind: "scale", Del: del, Cur: cur, Tpls: 1 + int(l)%2, Expect: cur, Via: via, Live: l}
+					l2, o := runK8sScale(c)
+					add(c, l2, o)
 				}
 			}
 		}
